@@ -34,3 +34,11 @@ Theorem C17_attrs_parameter_drops_the_underscore : forall f,
   l_private f = true -> field_id KAttrs f = String.append "_" (param_name KAttrs f).
 Proof. exact attrs_parameter_drops_the_underscore. Qed.
 Print Assumptions C17_attrs_parameter_drops_the_underscore.
+
+(* ... so that, for every stack of providers without as_list, every logical field gets the same path (or is absent alike)
+   in the TypedDict twin and in a twin of any definition-order kind *)
+Theorem C17_typed_dict_same_paths : forall k lm sc output,
+  keeps_definition_order k = true -> s_as_list sc = false ->
+  Permutation (named_paths sc output (layout_fields KTypedDict lm)) (named_paths sc output (layout_fields k lm)).
+Proof. exact typed_dict_same_paths. Qed.
+Print Assumptions C17_typed_dict_same_paths.
